@@ -65,6 +65,19 @@ func loaderSuffix(c *Ctx) (string, bool) {
 						}
 					}
 				}
+				// filepath.Ext(name) == ".toml" is the same filter (see extAsSuffix)
+				if bo, ok := in.(*ssa.BinOp); ok && (bo.Op == token.EQL || bo.Op == token.NEQ) {
+					if t := NewFnView(c.P, w.fn).Term(bo); t != nil {
+						for t.Op == "unop" && t.Aux == "!" {
+							t = t.Args[0]
+						}
+						if t.Op == "call" && t.Aux == "strings.HasSuffix" {
+							if k, ok := t.Args[1].IsStringConst(); ok {
+								return k, true
+							}
+						}
+					}
+				}
 			}
 		}
 	}
@@ -96,10 +109,22 @@ func checkC19(c *Ctx) {
 	}
 	hoisted := make([]hoistedSend, len(change.Sends))
 	senders := map[*ssa.Function]bool{}
+	// the function that holds the event loop: a receive from watcher.Events inside a cycle
+	holdsEventLoop := func(fn *ssa.Function) bool {
+		v := NewFnView(c.P, fn)
+		for _, b := range fn.Blocks {
+			for _, in := range b.Instrs {
+				if u, ok := in.(*ssa.UnOp); ok && u.Op == token.ARROW && strings.HasSuffix(v.Term(u.X).String(), ".Events") && inCycle(b) {
+					return true
+				}
+			}
+		}
+		return false
+	}
 	for i, s := range change.Sends {
 		at := s.Instr
 		fn := s.Fn
-		for depth := 0; depth < 3 && fn.Parent() == nil && fn != det; depth++ {
+		for depth := 0; depth < 3 && fn.Parent() == nil && fn != det && !holdsEventLoop(fn); depth++ {
 			sites, ok := staticCallSites(c.P, fn)
 			if !ok || len(sites) != 1 {
 				break
@@ -116,17 +141,58 @@ func checkC19(c *Ctx) {
 	if !c.Require(len(senders) == 1, "R19.4", "config.DetectDeviceConfigChanges/single-sender", fmt.Sprintf("%d sending functions", len(senders))) {
 		return
 	}
-	var worker *ssa.Function
+	// loopFn sends from inside the event loop; worker is the goroutine it runs in (the same function, unless the loop was
+	// made a function or method of its own that the goroutine calls once); family: the worker and what it calls
+	// synchronously (set-up helpers)
+	var loopFn *ssa.Function
 	for f := range senders {
-		worker = f
+		loopFn = f
+	}
+	worker := loopFn
+	var loopCall ssa.CallInstruction // in the worker: the call that leads to the event loop
+	var loopCallGuards []Atom
+	for depth := 0; depth < 3 && worker.Parent() == nil && worker != det; depth++ {
+		sites, ok := staticCallSites(c.P, worker)
+		if !ok || len(sites) != 1 {
+			break
+		}
+		if _, isCall := sites[0].(*ssa.Call); !isCall {
+			break // started with go or deferred: this is the goroutine's function
+		}
+		loopCall = sites[0]
+		worker = loopCall.Parent()
+		loopCallGuards = append(loopCallGuards, NewFnView(c.P, worker).GuardsAt(loopCall.Block())...)
+	}
+	family := []*ssa.Function{worker}
+	{
+		seenF := map[*ssa.Function]bool{worker: true}
+		for i := 0; i < len(family) && i < 16; i++ {
+			for _, b := range family[i].Blocks {
+				for _, in := range b.Instrs {
+					if call, ok := in.(*ssa.Call); ok {
+						if f := call.Call.StaticCallee(); f != nil && c.P.OwnedFunc(f) && funcPkgPath(f) == pkgConfig && !seenF[f] && len(f.Blocks) > 0 {
+							seenF[f] = true
+							family = append(family, f)
+						}
+					}
+				}
+			}
+		}
 	}
 	c.Fn(shortFn(worker))
+	if loopFn != worker {
+		c.Fn(shortFn(loopFn))
+	}
 
 	// R19.1 same directories as the loader
 	roots := loaderRoots(c)
 	var watched []string
 	var addCalls []*ssa.Call
-	for _, b := range worker.Blocks {
+	var famBlocks []*ssa.BasicBlock
+	for _, f := range family {
+		famBlocks = append(famBlocks, f.Blocks...)
+	}
+	for _, b := range famBlocks {
 		for _, in := range b.Instrs {
 			if call, ok := in.(*ssa.Call); ok {
 				if name, pkg, _ := calledMethod(call); name == "Add" && strings.Contains(pkg, "fsnotify") {
@@ -173,12 +239,16 @@ func checkC19(c *Ctx) {
 
 	// R19.2 / R19.3 the send
 	vw := NewFnView(c.P, worker)
+	vwL := vw
+	if loopFn != worker {
+		vwL = NewFnView(c.P, loopFn)
+	}
 	suffix, okSuf := loaderSuffix(c)
 	c.Require(okSuf, "R19.2", "anchor:loader-suffix", "the loader's suffix filter was not found")
 	for i, s := range change.Sends {
 		key := fmt.Sprintf("config.DetectDeviceConfigChanges/notify#%d", i+1)
 		spos := c.P.Pos(s.Instr.Pos())
-		atoms := vw.GuardsAt(hoisted[i].at.Block())
+		atoms := append(append([]Atom{}, loopCallGuards...), vwL.GuardsAt(hoisted[i].at.Block())...)
 		hasWrite, hasSuffix := false, false
 		gotSuffix := ""
 		var others []string
@@ -254,7 +324,7 @@ func checkC19(c *Ctx) {
 	// notifies iff it saw a write to a name with the loader's suffix; an iteration that does not notify has seen the
 	// event not to be a write, the name not to have the suffix, or the event stream closed - nothing else (a size test,
 	// a "seen recently" filter, a per-name marker) may suppress a notification
-	ruleNotifyIff(c, worker, change, suffix)
+	ruleNotifyIff(c, loopFn, change, suffix)
 
 	// R19.7 the watcher's error channel is drained: fsnotify hands errors (e.g. the kernel's queue overflow after a burst
 	// with a late consumer) over an unbuffered channel and delivers nothing more until somebody takes them
@@ -383,9 +453,9 @@ func checkC19(c *Ctx) {
 	c.Check(closer, "R19.4", "config.DetectDeviceConfigChanges/watcher-closed-on-cancel", c.P.Pos(worker.Pos()), "a goroutine waits for <-ctx.Done() and then closes the watcher", "nothing closes the watcher when the context is cancelled: the watcher goroutine never stops")
 	// the event loop is a range over watcher.Events
 	rangesEvents := false
-	for _, b := range worker.Blocks {
+	for _, b := range loopFn.Blocks {
 		for _, in := range b.Instrs {
-			if u, ok := in.(*ssa.UnOp); ok && u.Op.String() == "<-" && u.CommaOk && strings.HasSuffix(vw.Term(u.X).String(), ".Events") && inCycle(b) {
+			if u, ok := in.(*ssa.UnOp); ok && u.Op.String() == "<-" && u.CommaOk && strings.HasSuffix(vwL.Term(u.X).String(), ".Events") && inCycle(b) {
 				rangesEvents = true
 			}
 		}
@@ -398,6 +468,27 @@ func checkC19(c *Ctx) {
 	{
 		var eventsRecv *ssa.BasicBlock
 		var createFail *ssa.BasicBlock
+		if loopFn != worker && loopCall != nil {
+			// the loop is a function of its own: the worker is past it after the call - if that function returns only
+			// after its loop
+			var lr *ssa.BasicBlock
+			for _, b := range loopFn.Blocks {
+				for _, in := range b.Instrs {
+					if u, ok := in.(*ssa.UnOp); ok && u.Op.String() == "<-" && strings.HasSuffix(vwL.Term(u.X).String(), ".Events") && inCycle(b) {
+						lr = b
+					}
+				}
+			}
+			through := lr != nil
+			for _, b := range loopFn.Blocks {
+				if _, ok := b.Instrs[len(b.Instrs)-1].(*ssa.Return); ok && b != loopFn.Recover && (lr == nil || !lr.Dominates(b)) {
+					through = false
+				}
+			}
+			if through && loopCall.Parent() == worker {
+				eventsRecv = loopCall.Block()
+			}
+		}
 		for _, b := range worker.Blocks {
 			for _, in := range b.Instrs {
 				if u, ok := in.(*ssa.UnOp); ok && u.Op.String() == "<-" && strings.HasSuffix(vw.Term(u.X).String(), ".Events") && inCycle(b) {
@@ -440,7 +531,14 @@ func checkC19(c *Ctx) {
 	{
 		n9, bad9 := 0, ""
 		var badPos token.Pos
-		for _, b := range worker.Blocks {
+		var blocks9 []*ssa.BasicBlock
+		views9 := map[*ssa.Function]*FnView{}
+		for _, f := range family {
+			blocks9 = append(blocks9, f.Blocks...)
+			views9[f] = NewFnView(c.P, f)
+		}
+		for _, b := range blocks9 {
+			vw := views9[b.Parent()]
 			for _, sc := range b.Succs {
 				if !sc.Dominates(b) {
 					continue
